@@ -38,4 +38,25 @@ CHECKS = {
             {"pkg": "internal/spynode", "test": "TestVerif_C09Node", "shards": {"quick": 4, "thorough": 4}},
         ],
     },
+    "C05": {
+        "level": "exploration",
+        "technique": "runtime monitoring: reference-model monitor of the mempool outpoint index in lock-step (bounded-exhaustive + random), plus callback-history checker over direct-drive node histories",
+        "level_text": "TODO",
+        "level_note": "TODO",
+        "unclaimed": "not claimed yet: node-level part of the monitor still being built",
+        "runs": [
+            {"pkg": "internal/state", "test": "TestVerif_C05"},
+        ],
+    },
+    "C14": {
+        "level": "exploration",
+        "technique": "runtime monitoring: online trace checker over emitted getdata(tx) events under a virtual clock (aged request times) + porcupine linearizability check per txid of concurrent AddRequest histories under the race detector",
+        "level_text": "Thousands of generated interleavings of inventory announcements from one trusted and three untrusted connections, body arrivals, silent peers, confirmations and periodic tracker checks are run through the real inv handlers, MemPool.AddRequest and TxTracker.Check; every getdata(tx) the code emits is judged against a virtual clock (no second request inside the window, none after the body, a waiting announcer asks at its next check once the window passed, nothing after confirmation). Four goroutines announcing overlapping sets in one epoch give concurrent histories checked with porcupine and the race detector. Exploration: interleavings are unbounded; the generator is dense around the window boundary.",
+        "level_note": "Trusted: ageing accessor (MemPool.VerifAge) as virtual time, 0.1 s margin around the 3 s window, the harness re-issues the two calls processUnconfirmedTx makes on body arrival and the two calls block processing makes on confirmation.",
+        "runs": [
+            {"pkg": "internal/handlers", "test": "TestVerif_C14"},
+            {"pkg": "internal/handlers", "test": "TestVerif_C14Conc", "race": True},
+        ],
+        "race_attrib": [r"state\.\(\*MemPool\)\.", r"state\.\(\*TxTracker\)\."],
+    },
 }
